@@ -44,6 +44,9 @@ class Probe:
             self.active -= 1
 
 
+STATES: set[Any] = set()
+
+
 def run_case(ci: int, seq: tuple[int, ...]) -> list[tuple[str, str]]:
     restart, wfc, repeat, wbs, dur = configs()[ci]
     viols: list[tuple[str, str]] = []
@@ -112,6 +115,7 @@ def run_case(ci: int, seq: tuple[int, ...]) -> list[tuple[str, str]]:
                 viols.append((exc_sig(f"call-raises:{ev}", exc), f"{exc!r}; {cfg} trace={trace}"))
                 break
             w.loop.settle()
+            STATES.add((ci, registered, other_registered, stopped, state.name, lost, other_lost, live("T1"), live("T2"), probe.active, oprobe.active, w.loop.timer_profile()))
             ctxs = f"{cfg} trace={trace}"
             for name, nb, want, pr in (("T1", n1, want1, probe), ("T2", n2, want2, oprobe)):
                 made = len(instances(name)) - nb
@@ -190,6 +194,9 @@ def worker(k: int, n: int, depth: int) -> Part:
                 part.viol(s, d, [ci, list(seq)], rank=(len(seq), ci, seq))
             if part.evaluations <= 2:
                 part.sample([ci, list(seq)])
+    for k_ in STATES:
+        part.state(k_)
+    STATES.clear()
     return part
 
 
